@@ -295,6 +295,12 @@ func c15CrossNamespace(c *vc.Ctx, h *Host, liveNs []int, eng string) {
 		if pr[0] == pr[1] {
 			continue
 		}
+		c15CrossPair(c, h, eng, pi, pr, count, fired)
+	}
+}
+
+func c15CrossPair(c *vc.Ctx, h *Host, eng string, pi int, pr [2]int, count int, fired map[string]bool) {
+	{
 		nsA, nsB := "p"+strconv.Itoa(pr[0]), "p"+strconv.Itoa(pr[1])
 		nss := map[string]int{nsA: pr[0], nsB: pr[1]}
 		conn, err := Dial(h.Addr(), 20*time.Second)
@@ -400,7 +406,7 @@ func c15CrossNamespace(c *vc.Ctx, h *Host, liveNs []int, eng string) {
 				if d := xnsDiff(before, after); len(d) > 0 {
 					violate("the command was refused but the partition stores changed (before vs after):", d)
 					conn.Close()
-					goto nextPair
+					return
 				}
 				continue
 			}
@@ -420,35 +426,85 @@ func c15CrossNamespace(c *vc.Ctx, h *Host, liveNs []int, eng string) {
 					want = ":" + strconv.Itoa(cnt)
 				case "EXISTS":
 					cnt := 0
-					seen := map[string]bool{}
 					for _, rf := range refs {
-						if _, ok := models[rf.ns][rf.k]; ok && !seen[rf.ns+"|"+rf.k] {
-							cnt++
+						if _, ok := models[rf.ns][rf.k]; ok {
+							cnt++ // with multiplicity, like the one-store EXISTS of part (d)
 						}
-						seen[rf.ns+"|"+rf.k] = true
 					}
 					want = ":" + strconv.Itoa(cnt)
 				default:
-					var oks []string
+					// PLSET / pipelined SETs: the server may apply a part only (a pipeline
+					// can reach it in two reads: the first SETs run alone, the rest is
+					// folded; a partition group of PLSET can fail on its own). Sound
+					// demand: every store cell that changed is the owner cell of a named
+					// (namespace, key) and now holds a value this command gave to exactly
+					// that (namespace, key).
+					allowed := map[string]map[string]bool{}
 					for _, rf := range refs {
-						models[rf.ns][rf.k] = rf.v
-						oks = append(oks, "+OK")
+						cell := fmt.Sprintf("%s-%d|%s", rf.ns, zanredisdb.GetHashedPartitionID([]byte(rf.k), nss[rf.ns]), rf.k)
+						if allowed[cell] == nil {
+							allowed[cell] = map[string]bool{}
+						}
+						allowed[cell]["$"+strconv.Quote(rf.v)] = true
 					}
-					want = strings.Join(oks, " ")
+					var bad []string
+					cells := map[string]bool{}
+					for k := range before {
+						cells[k] = true
+					}
+					for k := range after {
+						cells[k] = true
+					}
+					for cell := range cells {
+						if before[cell] != after[cell] && !allowed[cell][after[cell]] {
+							bad = append(bad, fmt.Sprintf("%s: %s -> %s", cell, cut(before[cell], 40), cut(after[cell], 40)))
+						}
+					}
+					if len(bad) > 0 {
+						sort.Strings(bad)
+						violate("a partition store changed in a cell / to a value that no named (namespace, key) owns (cell: before -> after):", bad)
+						conn.Close()
+						return
+					}
+					allOK := len(rs) == len(refs)
+					for _, rp := range rs {
+						if rp.IsErr() {
+							allOK = false
+						}
+					}
+					if allOK {
+						var oks []string
+						for _, rf := range refs {
+							models[rf.ns][rf.k] = rf.v
+							oks = append(oks, "+OK")
+						}
+						want = strings.Join(oks, " ")
+					} else {
+						// partly applied: take the models from the (validated) observation
+						c.Ev.Count("d_cross_namespace_partly_applied", 1)
+						for _, rf := range refs {
+							cell := fmt.Sprintf("%s-%d|%s", rf.ns, zanredisdb.GetHashedPartitionID([]byte(rf.k), nss[rf.ns]), rf.k)
+							if v, ok := after[cell]; ok {
+								if uq, err := strconv.Unquote(strings.TrimPrefix(v, "$")); err == nil {
+									models[rf.ns][rf.k] = uq
+								}
+							}
+						}
+						want = reply
+					}
 				}
 				if d := xnsDiff(xnsExpected(models, nss), after); len(d) > 0 {
 					violate("the command was accepted but the keys were not acted on in their own namespace and partition (expected vs observed stores):", d)
 					conn.Close()
-					goto nextPair
+					return
 				}
 				if reply != want {
 					violate("the command was accepted but a one-store-per-namespace model answers "+want, nil)
 					conn.Close()
-					goto nextPair
+					return
 				}
 			}
 		}
 		conn.Close()
-	nextPair:
 	}
 }
